@@ -124,6 +124,8 @@ type World struct {
 	scnID          string
 	quiesceTimeout time.Duration
 	indexHeld      bool // an op is running under withIndexHeld
+	heldFirst      map[string]chan struct{}
+	heldTaken      map[string]chan struct{}
 	reuseOpts      bool // address family: each peer passes one options value to every create/open
 	peerOpts       map[int]*orbitdb.CreateDBOptions
 	unserved       map[int]bool // peers whose instance stopped taking direct-channel messages
@@ -259,6 +261,12 @@ func (w *World) hook(name string, args ...interface{}) {
 	if ch, ok := w.heldHooks[name]; ok {
 		wait = ch
 		w.hookWaiting[name]++
+	} else if ch, ok := w.heldFirst[name]; ok {
+		// only the first goroutine to arrive is held; the others pass
+		wait = ch
+		delete(w.heldFirst, name)
+		w.heldTaken[name] = ch
+		w.hookWaiting[name]++
 	}
 	w.cond.Broadcast()
 	w.mu.Unlock()
@@ -284,8 +292,31 @@ func (w *World) holdHook(name string) {
 	w.mu.Unlock()
 }
 
+// holdFirst makes the first goroutine that reaches the named hook point wait until releaseHook.
+func (w *World) holdFirst(name string) {
+	w.mu.Lock()
+	if w.heldFirst == nil {
+		w.heldFirst = map[string]chan struct{}{}
+		w.heldTaken = map[string]chan struct{}{}
+	}
+	if w.hookWaiting == nil {
+		w.hookWaiting = map[string]int{}
+	}
+	w.heldFirst[name] = make(chan struct{})
+	w.hookWaiting[name] = 0
+	w.mu.Unlock()
+}
+
 func (w *World) releaseHook(name string) {
 	w.mu.Lock()
+	if ch, ok := w.heldFirst[name]; ok {
+		close(ch)
+		delete(w.heldFirst, name)
+	}
+	if ch, ok := w.heldTaken[name]; ok {
+		close(ch)
+		delete(w.heldTaken, name)
+	}
 	if ch, ok := w.heldHooks[name]; ok {
 		close(ch)
 		delete(w.heldHooks, name)
